@@ -78,6 +78,26 @@ func genCbor(r *rand.Rand, n int) []string {
 			b = append([]byte{0xa2}, append(append(append([]byte{}, 0x01), b...), append([]byte{0x18, 0x01}, b...)...)...)
 		}
 		out = append(out, "cbor.dec "+hx(b))
+		if i%40 == 0 { // nesting around the decoder's limit (arrays, maps, tags, mixed), well-formed otherwise
+			d := []int{30, 31, 32, 33, 34, 35, 48, 64, 200, 1000}[r.Intn(10)]
+			var deep []byte
+			for j := 0; j < d; j++ {
+				switch r.Intn(4) {
+				case 0:
+					deep = append(deep, 0xa1, 0x00) // {0: …}
+				case 1:
+					deep = append(deep, 0xc1+byte(r.Intn(3))*0 + 0x18) // tag(24..)
+					deep = append(deep, 0x40+byte(r.Intn(20)))
+					deep = append(deep[:len(deep)-2], 0xd8, 0x40+byte(r.Intn(20)))
+				default:
+					deep = append(deep, 0x81) // […]
+				}
+			}
+			deep = append(deep, 0x00)
+			out = append(out, "cbor.dec "+hx(deep))
+			// the same depth inside a label map value (what CoseMap / Headers / Key decoders see)
+			out = append(out, "map.unmarshal "+hx(append([]byte{0xa1, 0x01}, deep...)))
+		}
 	}
 	return out
 }
